@@ -39,6 +39,7 @@ type Cell struct {
 	global *ssa.Global
 	init   *Term // value when never assigned (globals: symbolic entry value)
 	id     int
+	ghostSort Sort // ghost cells: SMT sort (typ is nil)
 	detached bool // holds a copy of a slice value whose variable is unknown: stores are outside the subset
 }
 
@@ -52,6 +53,7 @@ type IterVal struct {
 	count  *Cell // ghost: number of entries delivered so far (map iteration)
 	dom0   *Term // domain and length of the map when the iteration started
 	len0   *Term
+	visited *Cell // ghost: set of keys delivered so far
 }
 
 type FuncVal struct {
@@ -270,6 +272,9 @@ func (c *FnCtx) getCell(st *State, cell *Cell) *Term {
 	}
 	if cell.init != nil {
 		return cell.init
+	}
+	if cell.typ == nil {
+		unsupported("ghost cell %s read before initialisation", cell.name)
 	}
 	return c.eng.tc.Zero(cell.typ)
 }
